@@ -435,13 +435,16 @@ def parseMts (m : RxMsg) (mts : Nat) : RxMsg :=
       { m with nopeInd := false, tsc := some (tsc : Int),
                modType := some Modulation.gmsk, tscSet := some ((x &&& 0b11 : Nat) : Int) }
 
+/-- the modulation guessed by `_parse_burst_v0` from the burst length: `pick_by_bl(bl)`, and if that
+is `None` (some old transceivers append two dummy bytes) `pick_by_bl(bl - 2)` -/
+def guessMod (bl : Int) : Option Modulation :=
+  match Modulation.pickByBl bl with
+  | some m => some m
+  | none => Modulation.pickByBl (bl - 2)
+
 /-- `_parse_burst_v0(burst)`: (guessed modulation, burst cut to its length) -/
 def parseBurstV0 (burst : Bytes) : Except Exc (Modulation × Bytes) :=
-  let bl : Int := burst.length
-  let mod := match Modulation.pickByBl bl with
-    | some m => some m
-    | none => Modulation.pickByBl (bl - 2)
-  match mod with
+  match guessMod (burst.length : Int) with
   | none => .error .valueError
   | some m => .ok (m, burst.take m.bl)
 
